@@ -33,6 +33,9 @@ pub struct Spec {
     /// the last block of branch b is replaced by an invalid twin (wrong burn fee, re-signed): a
     /// chain that fails while it is being wound, after its earlier blocks were applied
     pub invalid_last_b: bool,
+    /// the first block of branch B is replaced by an invalid twin (its payment spends an output that
+    /// never existed; re-signed by its creator) and the rest of the branch is re-parented onto it
+    pub invalid_first_b: bool,
     /// the node under test keeps only the tip's transactions in memory (prune_after_blocks = 1)
     pub pruned: bool,
 }
@@ -92,6 +95,37 @@ pub fn build(spec: &Spec) -> Result<Fork, String> {
             let parent = w.blocks[last].parent;
             let idx = w.register(blk, parent, false, format!("B{}x", bb.len()));
             *bb.last_mut().unwrap() = idx;
+        }
+    }
+    if spec.invalid_first_b && !bb.is_empty() {
+        // its payment is replaced by one that spends an output which never existed (properly
+        // signed by the payer): nothing a descendant's consensus values depend on changes
+        let mut blk = decode_block(&w.blocks[bb[0]].bytes);
+        blk.created_hashmap_of_slips_spent_this_block = false;
+        blk.slips_spent_this_block.clear();
+        let Some(i) = blk.transactions.iter().position(|t| t.transaction_type == saito_core::core::consensus::transaction::TransactionType::Normal && t.from.iter().any(|s| s.amount > 0)) else {
+            return Err("first block of B carries no payment".into());
+        };
+        let mut ne = blk.transactions[i].from.iter().find(|s| s.amount > 0).unwrap().clone();
+        ne.tx_ordinal += 40;
+        let outs: Vec<(saito_core::core::defs::SaitoPublicKey, u64)> = blk.transactions[i].to.iter().map(|s| (s.public_key, s.amount)).collect();
+        blk.transactions[i] = crate::node::make_tx(&[ne], &outs, &key(1), blk.transactions[i].timestamp, b"phantom");
+        blk.merkle_root = [0; 32];
+        blk.merkle_root = blk.generate_merkle_root(false, false);
+        blk.sign(&w.creator.private);
+        blk.generate().unwrap();
+        let mut parent_idx = w.register(blk.clone(), w.blocks[bb[0]].parent, false, "B1x".into());
+        let mut parent_hash = blk.hash;
+        let n = bb.len();
+        bb[0] = parent_idx;
+        for i in 1..n {
+            let honest = decode_block(&w.blocks[bb[i]].bytes);
+            let c = super::c04::rebase(&w, &honest, parent_hash);
+            parent_hash = c.hash;
+            // valid in itself; its chain is not (World::path validity looks at every ancestor)
+            let idx = w.register(c, Some(parent_idx), true, format!("B{}r", i + 1));
+            bb[i] = idx;
+            parent_idx = idx;
         }
     }
     Ok(Fork { w, stem, aa, bb })
@@ -175,7 +209,7 @@ fn run_order(fk: &Fork, order: &[usize], orphan_swap: Option<usize>, spec: &Spec
         cfg.consensus.prune_after_blocks = 1;
     }
     let mut n = LedgerNode::new(key(9), cfg);
-    let ctx = json!({"pruned_memory": spec.pruned, "g": spec.g, "loading": spec.loading, "invalid_last_b": spec.invalid_last_b, "stem_gt": spec.stem_gt, "gt_a": spec.gt_a, "gt_b": spec.gt_b, "slow_a": spec.slow_a, "slow_b": spec.slow_b, "spacing_a": spec.sp_a, "spacing_b": spec.sp_b, "order": order, "orphan_swap": orphan_swap});
+    let ctx = json!({"pruned_memory": spec.pruned, "g": spec.g, "loading": spec.loading, "invalid_last_b": spec.invalid_last_b, "invalid_first_b": spec.invalid_first_b, "stem_gt": spec.stem_gt, "gt_a": spec.gt_a, "gt_b": spec.gt_b, "slow_a": spec.slow_a, "slow_b": spec.slow_b, "spacing_a": spec.sp_a, "spacing_b": spec.sp_b, "order": order, "orphan_swap": orphan_swap});
     for &i in fk.stem.iter() {
         match n.add_block_bytes(&w.blocks[i].bytes) {
             Outcome::Done(AddRes::AddedLongest) => {}
@@ -352,7 +386,7 @@ fn joined_mid_chain(rep: &mut Report) {
             for a in 2..=3usize {
                 for b in 1..=a {
                     for slow_b in [false, true] {
-                        specs.push(Spec { stem_gt: stem.clone(), a, b, gt_a: (0..a).map(|i| i % 2 == 0).collect(), gt_b: (0..b).map(|i| i % 2 == 0).collect(), slow_a: false, slow_b, sp_a: None, sp_b: None, g, loading: true, invalid_last_b: false, pruned: false });
+                        specs.push(Spec { stem_gt: stem.clone(), a, b, gt_a: (0..a).map(|i| i % 2 == 0).collect(), gt_b: (0..b).map(|i| i % 2 == 0).collect(), slow_a: false, slow_b, sp_a: None, sp_b: None, g, loading: true, invalid_last_b: false, invalid_first_b: false, pruned: false });
                     }
                 }
             }
@@ -431,7 +465,7 @@ pub fn main(tier: Tier, replay: Option<String>) -> i32 {
                             if a == 0 && sa {
                                 continue;
                             }
-                            specs.push(Spec { stem_gt: st.clone(), a, b, gt_a: ga.clone(), gt_b: gb.clone(), slow_a: sa, slow_b: sb, sp_a: None, sp_b: None, g: 12, loading: false, invalid_last_b: false, pruned: false });
+                            specs.push(Spec { stem_gt: st.clone(), a, b, gt_a: ga.clone(), gt_b: gb.clone(), slow_a: sa, slow_b: sb, sp_a: None, sp_b: None, g: 12, loading: false, invalid_last_b: false, invalid_first_b: false, pruned: false });
                         }
                     }
                 }
@@ -446,7 +480,7 @@ pub fn main(tier: Tier, replay: Option<String>) -> i32 {
             for pb in 0..8u32 {
                 let sp_a: Vec<u64> = (0..2).map(|i| if pa >> i & 1 == 1 { 5 } else { 2 }).collect();
                 let sp_b: Vec<u64> = (0..3).map(|i| if pb >> i & 1 == 1 { 5 } else { 2 }).collect();
-                specs.push(Spec { stem_gt: st.clone(), a: 2, b: 3, gt_a: vec![true, true], gt_b: vec![true, false, true], slow_a: false, slow_b: false, sp_a: Some(sp_a), sp_b: Some(sp_b), g: 12, loading: false, invalid_last_b: false, pruned: false });
+                specs.push(Spec { stem_gt: st.clone(), a: 2, b: 3, gt_a: vec![true, true], gt_b: vec![true, false, true], slow_a: false, slow_b: false, sp_a: Some(sp_a), sp_b: Some(sp_b), g: 12, loading: false, invalid_last_b: false, invalid_first_b: false, pruned: false });
             }
         }
     }
@@ -480,7 +514,7 @@ pub fn main(tier: Tier, replay: Option<String>) -> i32 {
                     }
                     for ga in subsets(a) {
                         for gb in subsets(b) {
-                            extra.push(Spec { stem_gt: st.clone(), a, b, gt_a: ga.clone(), gt_b: gb.clone(), slow_a: false, slow_b: false, sp_a: None, sp_b: None, g: 12, loading: false, invalid_last_b: false, pruned: false });
+                            extra.push(Spec { stem_gt: st.clone(), a, b, gt_a: ga.clone(), gt_b: gb.clone(), slow_a: false, slow_b: false, sp_a: None, sp_b: None, g: 12, loading: false, invalid_last_b: false, invalid_first_b: false, pruned: false });
                         }
                     }
                 }
@@ -496,7 +530,15 @@ pub fn main(tier: Tier, replay: Option<String>) -> i32 {
                     x.g = 3;
                     x.loading = loading;
                     x.invalid_last_b = inv;
-                    specs.push(x);
+                    specs.push(x.clone());
+                    // (loaded nodes only: a loading node drops the refused block and then takes its
+                    // descendants for the start of a chain of their own -- C03's known finding)
+                    if inv && s.b >= 2 && !loading {
+                        let mut y = x.clone();
+                        y.invalid_last_b = false;
+                        y.invalid_first_b = true;
+                        specs.push(y);
+                    }
                 }
             }
         }
@@ -510,7 +552,11 @@ pub fn main(tier: Tier, replay: Option<String>) -> i32 {
     ];
     if std::env::var("VERIF_C05_DEBUG_ONE").is_ok() {
         // developer aid: one g=3 case, for reading the node's log
-        specs.retain(|s| s.g == 3 && s.stem_gt == vec![true, true, true, true] && s.a == 0 && s.b == 1 && !s.loading && !s.slow_b);
+        if std::env::var("VERIF_C05_DEBUG_ONE").as_deref() == Ok("first") {
+            specs.retain(|s| s.g == 3 && s.stem_gt.is_empty() && s.a == 0 && s.b == 3 && s.loading && s.invalid_first_b && !s.slow_b && s.gt_b == vec![false, false, false]);
+        } else {
+            specs.retain(|s| s.g == 3 && s.stem_gt == vec![true, true, true, true] && s.a == 0 && s.b == 1 && !s.loading && !s.slow_b);
+        }
         specs.truncate(1);
     }
     let results = par_map(&specs, workers(), |_, spec| {
